@@ -465,18 +465,25 @@ func runErrflow(c *Ctx) {
 
 	// ---------------- E3: the target's execution in Call is dominated by the nil branches
 	{
-		var execCall ssa.CallInstruction
-		for _, ci := range core.Calls(call) {
+		// every call of the executor made by Call (or one of its private steps): a second, unguarded site — a fast path
+		// around resolution — is as much an execution of the target as the main one
+		var execCalls []ssa.CallInstruction
+		for _, ci := range p.RegionCalls(call) {
 			if ci.Common().StaticCallee() == exec {
-				execCall = ci
+				execCalls = append(execCalls, ci)
 			}
 		}
-		if execCall == nil {
+		if len(execCalls) == 0 {
 			c.R.Undecided("ERRFLOW-E3", "Call|executor", "Call", p.Pos(call.Pos()), "Call does not call the executor directly")
-		} else {
+		}
+		for i, execCall := range execCalls {
+			sfx := ""
+			if i > 0 {
+				sfx = fmt.Sprintf("#%d", i+1)
+			}
 			// literals known where the executor is called, including what a nil error of a private step helper
 			// (`log, argMap, err := f.resolve(...)`) implies inside that helper
-			lits := p.ExpandLitsKeep(core.Lits(core.Guards(execCall.Block())))
+			lits := p.ExpandLitsKeep(p.ILits(execCall.Block()))
 			for _, role := range []string{"defaultsMerger", "graphBuilder", "resolver"} {
 				rf := c.role("ERRFLOW-E3", role)
 				if rf == nil {
@@ -494,7 +501,7 @@ func runErrflow(c *Ctx) {
 						}
 					}
 				}
-				c.R.Add("ERRFLOW-E3", "Call|"+role, "Call", p.InstrPos(execCall), ok,
+				c.R.Add("ERRFLOW-E3", "Call|"+role+sfx, "Call", p.InstrPos(execCall), ok,
 					"the target executes only on the nil-error branch of "+role, ternary(ok, "dominated by err==nil", "not dominated by err==nil of "+role))
 			}
 			// the argument map handed to the executor is the resolver's result
@@ -519,7 +526,7 @@ func runErrflow(c *Ctx) {
 					}
 				}
 			}
-			c.R.Add("ERRFLOW-E3", "Call|argmap-from-resolver", "Call", p.InstrPos(execCall), ok, "the target is executed with the argument map its resolver call returned", fmt.Sprintf("ok=%v", ok))
+			c.R.Add("ERRFLOW-E3", "Call|argmap-from-resolver"+sfx, "Call", p.InstrPos(execCall), ok, "the target is executed with the argument map its resolver call returned", fmt.Sprintf("ok=%v", ok))
 		}
 		// in the resolver: a converter executes with the map of its own nested resolver call, after its nil branch
 		for _, ci := range core.Calls(res) {
@@ -609,10 +616,7 @@ func runErrflow(c *Ctx) {
 
 	// ---------------- E5: last-resort guard in the executor
 	{
-		var rv ssa.CallInstruction
-		for _, ci := range p.RegionCalls(exec, core.RVCall) {
-			rv = ci
-		}
+		rv := c.oneSite("ERRFLOW-E5", "executor", "reflect.Value.Call", p.RegionCalls(exec, core.RVCall))
 		if rv == nil {
 			c.R.Undecided("ERRFLOW-E5", "executor|call", "executor", p.Pos(exec.Pos()), "no reflect.Value.Call in the executor")
 			return
